@@ -17,7 +17,7 @@ from .ast import Node, REPO
 
 VERIF = os.path.dirname(os.path.dirname(os.path.abspath(__file__)))
 CACHE = os.path.join(VERIF, '.cache')
-FRONTEND_VERSION = '9'
+FRONTEND_VERSION = '10'
 
 
 class AnalysisBroken(Exception):
@@ -263,6 +263,12 @@ def _reduce(j, L, counter):
                 n.val = ((n.val + ' ') if isinstance(n.val, str) else '') + ck if n.kind.endswith('Decl') else n.val
             continue
         n.kids.append(_reduce(c, L, counter))
+    if n.kind == 'CapturedDecl':
+        # clang lists the captured region's local declarations again as children: keep the statement only
+        n.kids = [k for k in n.kids if k.kind not in ('VarDecl', 'ImplicitParamDecl')]
+    if n.kind.startswith('OMP') and n.kind.endswith('Directive'):
+        # drop the helper expressions (captured variable references, loop bookkeeping) after the associated statement
+        n.kids = [k for k in n.kids if k.kind in ('CapturedStmt', 'CompoundStmt', 'ForStmt') or k.kind.startswith('OMP')]
     return n
 
 
